@@ -7,7 +7,7 @@
      pendulum.format_diff(diff, False, absolute, locale)                                                          (DiffFormat.format)
    precise_diff is the TRANSLATED pure-Python helper (Gen/PreciseDiff.v) or the hand model of the compiled one
    (Model/RustPreciseDiff.v, with its manual UTC shift exactly as written), both shared with C06.  An operand is a PdBase.pdt:
-   wall fields, UTC offset, tz name id, tzinfo object id.  No proofs here. *)
+   wall fields, UTC offset (the one its fold selects), tz name id, tzinfo object id.  No proofs here. *)
 From Coq Require Import ZArith List Bool String.
 From PV Require Import Lib.PyBase Spec.Cal Gen.Constants Gen.Helpers Model.PdBase Gen.PreciseDiff Model.RustPreciseDiff Model.PdInterval.
 From PV Require Import Model.LocaleBase Gen.Locales Model.DiffFormat.
@@ -19,30 +19,23 @@ Open Scope Z_scope.
 Definition pd_backend (rs : bool) (s e : pdt) : result pdiff :=
   if rs then Ok (rs_precise_diff s e) else py_precise_diff s e.
 
-(* what Interval.__init__ hands to precise_diff: datetime(year, ..., microsecond, tzinfo=x.tzinfo) — WITHOUT fold=, so the native
-   value reads its wall time with fold 0: its utcoffset() is off0, the offset of the first occurrence (= the true offset unless
-   the operand is the second occurrence of a repeated wall time) *)
-Definition refolded (d : pdt) (off0 : Z) : pdt :=
-  mkpdt (p_year d) (p_month d) (p_day d) (p_hour d) (p_minute d) (p_second d) (p_microsecond d) off0
-        (p_has_tz d) (p_tzname d) (p_tzobj d) (p_is_dt d).
-
-(* self.diff(other): (components, invert).  a, b carry their true offsets (start > end and the elapsed Duration of
-   Interval.__new__, which does pass fold=, are computed from them); oa, ob are the fold-0 offsets *)
-Definition diff_comps (rs : bool) (a b : pdt) (oa ob : Z) : result (comp * bool) :=
+(* self.diff(other): (components, invert).  Interval.__init__ hands precise_diff the native values
+   datetime(year, ..., microsecond, tzinfo=x.tzinfo, fold=x.fold): the same wall fields read with the same fold, hence with the same
+   utcoffset() — the operands themselves, whichever occurrence of a repeated wall time they are (since the repair of finding
+   interval-init-drops-fold; before it the natives were rebuilt without fold= and a second occurrence was read as the first).
+   `start > end` and the elapsed Duration of Interval.__new__ are computed from the same values. *)
+Definition diff_comps (rs : bool) (a b : pdt) : result (comp * bool) :=
   let inv := p_gtb a b in
   let s := if inv then b else a in
   let e := if inv then a else b in
-  let s0 := if inv then refolded b ob else refolded a oa in
-  let e0 := if inv then refolded a oa else refolded b ob in
-  bind (pd_backend rs s0 e0) (fun d =>
+  bind (pd_backend rs s e) (fun d =>
   let c := iv_components d (iv_elapsed s e) in
   Ok (mkcomp (iv_years c) (iv_months c) (iv_weeks c) (iv_remaining_days c) (iv_hours c) (iv_minutes c) (iv_remaining_seconds c), inv)).
 
 (* self.diff_for_humans(other, absolute, locale) *)
-Definition diff_for_humans (L : locale) (rs : bool) (a b : pdt) (oa ob : Z) (absolute : bool) : result pstr :=
-  bind (diff_comps rs a b oa ob) (fun ci => format L (fst ci) false absolute (snd ci)).
+Definition diff_for_humans (L : locale) (rs : bool) (a b : pdt) (absolute : bool) : result pstr :=
+  bind (diff_comps rs a b) (fun ci => format L (fst ci) false absolute (snd ci)).
 
 (* the UTC instants of both operands are representable (CPython raises OverflowError when it shifts otherwise) *)
-Definition dh_in_domain (a b : pdt) (oa ob : Z) : bool :=
-  wall_in_range (p_instant a) && wall_in_range (p_instant b) &&
-  wall_in_range (p_instant (refolded a oa)) && wall_in_range (p_instant (refolded b ob)).
+Definition dh_in_domain (a b : pdt) : bool :=
+  wall_in_range (p_instant a) && wall_in_range (p_instant b).
